@@ -296,6 +296,23 @@ Example C04_contents_example :
   /\ Mach.run (Mach.init 1) (plain nat [ (0, AClone, 0); (0, ASpawn 1 1, 0); (1, AProbe 0, 0); (1, AWrite, 5) ]) = Mach.Stuck)%nat.
 Proof. split; [exact Contents.ex_sched_runs|]. split; [exact Contents.ex_sched_held|]. split; [vm_compute; reflexivity|exact Contents.ex_foreign_write_stuck]. Qed.
 
+(* (12) a lender and its other handles.  While &h is lent, the lender may keep using every OTHER handle it holds on the
+   same buffer: clone, drop (a release needs two references: the lent one stays), and the uniqueness probe behind every
+   &mut method, which can never observe 1 whichever message it reads (invariant J11: a message a thread may still read
+   counts at least that thread's own references) — so the lender never writes in place under a borrower *)
+Theorem C04_lender_release_enabled : forall s t, Inv s -> (t < length (ths s))%nat -> started (getth s t) = true ->
+  (2 <= refs (getth s t))%nat -> exists s', Mach.step s t ARelease = Mach.Ok s'.
+Proof. exact lender_release_enabled. Qed.
+Theorem C04_lender_probe_not_exclusive : forall s t p s', Inv s -> lends_from s t = true -> Mach.step s t (AProbe p) = Mach.Ok s' ->
+  excl (getth s' t) = false /\ refs (getth s' t) = refs (getth s t) /\ (2 <= refs (getth s t))%nat.
+Proof. exact lender_probe_not_exclusive. Qed.
+Example C04_lender_example :
+  Mach.is_ok (Mach.run (Mach.init 1) [ (0, AClone); (0, ALend 1); (1, AReadB); (0, AProbe 0); (0, ARelease); (1, ACloneB); (1, ARead);
+                        (0, ARead); (1, ARelease); (0, AJoinB 1); (0, AProbe 0); (0, AWrite) ])%nat = true
+  /\ Mach.run (Mach.init 1) [ (0, ALend 1); (0, ARelease) ]%nat = Mach.Stuck
+  /\ Mach.run (Mach.init 1) [ (0, ALend 1); (0, AProbe 0) ]%nat = Mach.Stuck.
+Proof. exact lender_edits_other_handle. Qed.
+
 Print Assumptions C04_atomic_sites.
 Print Assumptions C04_protocol_safe_all_schedules.
 Print Assumptions C04_invariant.
@@ -334,3 +351,6 @@ Print Assumptions C04_writes_while_held_are_own.
 Print Assumptions C04_contents_thread_local.
 Print Assumptions C04_typed_write_is_sole.
 Print Assumptions C04_contents_example.
+Print Assumptions C04_lender_release_enabled.
+Print Assumptions C04_lender_probe_not_exclusive.
+Print Assumptions C04_lender_example.
